@@ -1125,6 +1125,32 @@ namespace
     reply ("\"st\":\"ok\"");
   }
 
+  // keep id=X in=<spec>: evaluate the input spec once and keep a copy of its top
+  // value under X, to be pushed (v:X) onto the input stacks of many executions.
+  void
+  op_keep (args_t const &a)
+  {
+    std::string msg;
+    zw_stack *stk = build_stack (arg (a, "in"), &msg);
+    if (stk == nullptr || zw_stack_depth (stk) < 1)
+      {
+	if (stk != nullptr)
+	  zw_stack_destroy (stk);
+	return reply ("\"st\":\"fail\",\"msg\":" + jstr (msg));
+      }
+    zw_value *v = wrap ("zw_value_clone", [&] (zw_error **e) {
+	return zw_value_clone (zw_stack_at (stk, 0), zw_value_pos (zw_stack_at (stk, 0)), e); }, &msg);
+    std::string ser = v != nullptr ? ser_value (*v) : "null";
+    zw_stack_destroy (stk);
+    if (v == nullptr)
+      return reply ("\"st\":\"fail\",\"msg\":" + jstr (msg));
+    std::string id = arg (a, "id");
+    if (g_values.count (id))
+      zw_value_destroy (g_values[id]);
+    g_values[id] = v;
+    reply ("\"st\":\"ok\",\"value\":" + ser);
+  }
+
   void
   op_close (args_t const &a)
   {
@@ -1376,6 +1402,7 @@ main (int argc, char **argv)
       else if (op == "sdestroy") op_sdestroy (a);
       else if (op == "open") op_open (a);
       else if (op == "close") op_close (a);
+      else if (op == "keep") op_keep (a);
       else if (op == "cmpmat") op_cmpmat (a);
       else if (op == "voc") op_voc (a);
       else if (op == "stats") op_stats (a);
